@@ -271,8 +271,13 @@ impl ModelTl {
                 for (k, f) in fr.iter().enumerate() {
                     if f.pos >= pl && f.pos <= phh {
                         add(frame_value(fr, k, start, first_pass));
-                        // with repeated positions the neighbours' segment ends are included too
-                        add(f.value);
+                        // with repeated positions the neighbours' segment ends are included too - but
+                        // while a substituted start value is in force the configured value of a lone
+                        // first frame is never shown (C10), so it does not widen the hull
+                        let overridden = k == 0 && start.is_some() && first_pass && fr.iter().filter(|g| g.pos == f.pos).count() == 1;
+                        if !overridden {
+                            add(f.value);
+                        }
                     }
                 }
                 // the easing output itself is an f32 (quantised to ~2^-24 near 1): its rounding times
